@@ -98,6 +98,16 @@ def tempBanMsg : Bytes :=
 def banNotice (id : Nat) (permanent : Bool) : Transaction :=
   ⟨0, 0, 104, id, 0, [⟨101, if permanent then permBanMsg else tempBanMsg⟩, ⟨113, [0, 0]⟩]⟩
 
+/-- The guest fallback applies to the empty login only. -/
+theorem loginOf_empty (t : Transaction) (h : (getField t 105).data = []) : loginOf t = guestLogin := by
+  simp [loginOf, h, obfuscate]
+
+theorem loginOf_nonempty (t : Transaction) (h : (getField t 105).data ≠ []) :
+    loginOf t = obfuscate (getField t 105).data := by
+  have : obfuscate (getField t 105).data ≠ [] := by
+    simpa [obfuscate] using h
+  simp [loginOf, this]
+
 -- ---------------------------------------------------------------- the session
 
 namespace Session
@@ -443,6 +453,85 @@ theorem loop_encodes {W O : Type} (handle : W → Transaction → W × List O) (
     obtain ⟨i1, i2⟩ := ih (handle w t).1 (fun u hu => h u (by simp [hu]))
     exact ⟨by rw [i1], i2⟩
 
+/-- A connection that passes handshake and gate continues with the scanner. -/
+theorem core_pass {W O : Type} (env : Env W O) (w : W) (hs : Bytes) (sc : Unit → Scan.Result)
+    (h1 : hs.length = 12) (h2 : handshakeValid hs = true)
+    (h3 : BanGate.refused env.bans (BanGate.ipOf env.addr) env.now = false) :
+    core env w hs sc = afterGate env w (sc ()) := by
+  unfold core
+  simp [h1, h2, h3]
+
+/-- An accepted login: registration, the loop over the remaining tokens, the deferred disconnect. -/
+theorem afterGate_accept {W O : Type} (env : Env W O) (w : W) (sc : Scan.Result) (t : Transaction)
+    (hd : Transaction.decode (sc.tokens.headD []) = .ok t) (ha : authenticate env t = true) :
+    afterGate env w sc =
+      ⟨.ended (loop env.handle (env.onLogin w (loginOf t) t).1 sc.status sc.tokens.tail).why, handshakeReply, true, some t,
+       (loop env.handle (env.onLogin w (loginOf t) t).1 sc.status sc.tokens.tail).dispatched,
+       (env.onDisconnect (loop env.handle (env.onLogin w (loginOf t) t).1 sc.status sc.tokens.tail).world).1,
+       (env.onLogin w (loginOf t) t).2 ++ (loop env.handle (env.onLogin w (loginOf t) t).1 sc.status sc.tokens.tail).outs ++
+         (env.onDisconnect (loop env.handle (env.onLogin w (loginOf t) t).1 sc.status sc.tokens.tail).world).2⟩ := by
+  unfold afterGate
+  split
+  · rename_i h; rw [hd] at h; cases h
+  · rename_i h; rw [hd] at h; cases h
+  · rename_i u h
+    rw [hd] at h
+    injection h with h
+    subst h
+    simp only [ha, if_true]
+
+theorem core_loginTran {W O : Type} (env : Env W O) (w : W) (hs : Bytes) (sc : Unit → Scan.Result) (t : Transaction)
+    (h : (core env w hs sc).loginTran = some t) : Transaction.decode ((sc ()).tokens.headD []) = .ok t := by
+  unfold core at h
+  by_cases h1 : hs.length ≠ 12
+  · simp [h1] at h
+  · simp only [h1, if_false] at h
+    by_cases h2 : handshakeValid hs = false
+    · simp [h2] at h
+    · simp only [h2] at h
+      by_cases h3 : BanGate.refused env.bans (BanGate.ipOf env.addr) env.now = true
+      · simp [h3] at h
+      · simp only [h3] at h
+        exact afterGate_loginTran env w (sc ()) t h
+
+/-- A logged-in connection was written to by the handler itself exactly once: the handshake reply. -/
+theorem core_loggedIn_toPeer {W O : Type} (env : Env W O) (w : W) (hs : Bytes) (sc : Unit → Scan.Result)
+    (h : (core env w hs sc).loggedIn = true) : (core env w hs sc).toPeer = handshakeReply := by
+  obtain ⟨h1, h2, h3, t, ht, ha⟩ := (core_loggedIn_iff env w hs sc).mp h
+  rw [core_pass env w hs sc h1 h2 h3, afterGate_accept env w (sc ()) t ht ha]
+
+/-- A well-formed session — valid handshake, address not refused, accepted login, then emitted
+    transactions that each fit the scanner's buffer — is logged in, dispatches exactly the
+    transactions sent, in order, and ends at EOF. -/
+theorem runStream_wellformed {W O : Type} (env : Env W O) (w : W) (hs : Bytes) (login : Transaction)
+    (ts : List Transaction) (hhs : hs.length = 12) (hv : handshakeValid hs = true)
+    (hb : BanGate.refused env.bans (BanGate.ipOf env.addr) env.now = false)
+    (hl : login.WFdec ∧ login.encode.length ≤ maxTok)
+    (hts : ∀ t ∈ ts, t.WFdec ∧ t.encode.length ≤ maxTok)
+    (hauth : authenticate env login = true) :
+    (runStream env w (hs ++ (login.encode ++ (ts.map Transaction.encode).flatten))).loggedIn = true ∧
+    (runStream env w (hs ++ (login.encode ++ (ts.map Transaction.encode).flatten))).dispatched = ts ∧
+    (runStream env w (hs ++ (login.encode ++ (ts.map Transaction.encode).flatten))).outcome = .ended .eof ∧
+    (runStream env w (hs ++ (login.encode ++ (ts.map Transaction.encode).flatten))).loginTran = some login := by
+  have ht : (hs ++ (login.encode ++ (ts.map Transaction.encode).flatten)).take 12 = hs := by
+    rw [← hhs]; exact List.take_left
+  have hd : (hs ++ (login.encode ++ (ts.map Transaction.encode).flatten)).drop 12
+      = login.encode ++ (ts.map Transaction.encode).flatten := by
+    rw [← hhs]; exact List.drop_left
+  have htok : Scan.tokensOf Scan.tranScanner maxTok (login.encode ++ (ts.map Transaction.encode).flatten)
+      = ⟨login.encode :: ts.map Transaction.encode, .eof⟩ := by
+    rw [tokensOf_encode_cons login hl.1.2.2.2.2.2 hl.2,
+      tokensOf_encodes ts (fun t h => ⟨(hts t h).1.2.2.2.2.2, (hts t h).2⟩)]
+  obtain ⟨l1, l2⟩ := loop_encodes env.handle (env.onLogin w (loginOf login) login).1 .eof ts (fun t h => (hts t h).1)
+  have hrun : runStream env w (hs ++ (login.encode ++ (ts.map Transaction.encode).flatten))
+      = afterGate env w ⟨login.encode :: ts.map Transaction.encode, .eof⟩ := by
+    unfold runStream
+    rw [ht, core_pass env w hs _ hhs hv hb, hd, htok]
+  rw [hrun, afterGate_accept env w _ login (by simpa using Transaction.decode_encode' login hl.1) hauth]
+  simp only [List.tail_cons]
+  refine ⟨trivial, l1, ?_, trivial⟩
+  rw [l2]; rfl
+
 -- ---------------------------------------------------------------- the ban gate inside the session (C17)
 
 /-- A refused address: the outcome is the ban notice whatever follows the handshake — `sc` (the
@@ -465,6 +554,34 @@ theorem core_not_refused {W O : Type} (env : Env W O) (w : W) (hs : Bytes) (sc :
   have he : BanGate.refused BanGate.Store.empty (BanGate.ipOf env.addr) env.now = false := rfl
   simp only [h3, he]
   rfl
+
+-- ---------------------------------------------------------------- a concrete instance (non-vacuity examples, oracle)
+
+/-- A small concrete environment: world = number of handler invocations, outputs = ids of the
+    transactions handled; accounts guest (empty password) and "ab" (password bytes [1,2]);
+    `verify` = equality ("hash" = the password bytes: the assumed bcrypt behaviour). -/
+def demoEnv (bans : BanGate.Store) (addr : Bytes) (now : Nat) : Env Nat Nat where
+  verify := fun h p => h == p
+  accts := fun l => if l = guestLogin then some [] else if l = [97, 98] then some [1, 2] else none
+  bans := bans
+  addr := addr
+  now := now
+  noticeId := 7
+  onLogin := fun w _ t => (w + 1, [t.id])
+  handle := fun w t => (w + 1, [t.id])
+  onDisconnect := fun w => (w + 1, [0])
+
+/-- TRTP HOTL 0001 0002 -/
+def demoHandshake : Bytes := handshakeBytes 1 2
+
+/-- guest login (empty login and password fields), id 1 -/
+def demoLogin : Transaction := ⟨0, 0, 107, 1, 0, [⟨105, []⟩, ⟨106, []⟩]⟩
+
+/-- login "ab" with the wrong password [9], id 5 -/
+def demoWrongLogin : Transaction := ⟨0, 0, 107, 5, 0, [⟨105, obfuscate [97, 98]⟩, ⟨106, [9]⟩]⟩
+
+/-- keep-alive, id 2 -/
+def demoKeepAlive : Transaction := ⟨0, 0, 500, 2, 0, []⟩
 
 end Session
 
